@@ -168,9 +168,42 @@ func TestC03LiquidSpends(t *testing.T) {
 		}
 		opening, _ := transaction.NewTxFromHex(txHex)
 		trueVout := uint32(w.OutsBefore)
+		// the opening transaction may also be the peer's: blinded like ours, with an explicit (unblinded)
+		// swap output, or with a further output to the swap script behind the real one - anything the
+		// validator accepts is in the domain
+		peerShape := rapid.SampledFrom([]string{"own", "own", "own", "peer-blinded", "peer-explicit", "peer-explicit", "peer-decoy-after"}).Draw(t, "openingBy")
+		if peerShape != "own" {
+			swapScript := realtx.P2WSH(scriptpolicy.Build(scriptpolicy.Params{Maker: makerPub, Taker: takerPub, Hash: hash[:], CSV: csv}))
+			pr := realtx.NewRand(seed + "peer")
+			otherBlind := pr.Key()
+			var outs []realtx.OutSpec
+			nb := rapid.IntRange(0, 2).Draw(t, "peerOutsBefore")
+			for i := 0; i < nb; i++ {
+				outs = append(outs, realtx.OutSpec{Script: []byte{0x00, 0x14, byte(i), 2, 3, 4, 5, 6, 7, 8, 9, 10, 11, 12, 13, 14, 15, 16, 17, 18, 19, 20}, Value: 33_000 + uint64(i), BlindTo: otherBlind.PubKey()})
+			}
+			so := realtx.OutSpec{Script: swapScript, Value: amount, BlindTo: blind.PubKey()}
+			if peerShape == "peer-explicit" {
+				so.BlindTo = nil
+			}
+			outs = append(outs, so)
+			if peerShape == "peer-decoy-after" {
+				outs = append(outs, realtx.OutSpec{Script: swapScript, Value: amount / 2, BlindTo: blind.PubKey()})
+			}
+			outs = append(outs, realtx.OutSpec{Script: []byte{0x00, 0x14, 9, 9, 9, 4, 5, 6, 7, 8, 9, 10, 11, 12, 13, 14, 15, 16, 17, 18, 19, 20}, Value: 44_000, BlindTo: otherBlind.PubKey()}, realtx.OutSpec{Fee: true, Value: 260})
+			ptx, err := realtx.BuildTx(pr, rapid.IntRange(1, 2).Draw(t, "peerInputs"), outs)
+			if err != nil {
+				t.Fatalf("harness: build peer opening: %v", err)
+			}
+			ph, _ := ptx.ToHex()
+			if ok, verr := l.ValidateTx(params, ph); !ok || verr != nil {
+				col.Case("peer-opening-refused:"+peerShape, false, nil, "peer-opening-not-accepted-by-validator:"+peerShape)
+				return
+			}
+			opening, txHex, trueVout = ptx, ph, uint32(nb)
+		}
 		walletPay := walletScriptOf(w)
 		kind := rapid.SampledFrom([]string{"preimage", "csv", "coop"}).Draw(t, "kind")
-		desc := fmt.Sprintf("kind=%s csv=%d amount=%d inputs=%d before=%d after=%d equal=%v fee=%s/%d", kind, csv, amount, w.Inputs, w.OutsBefore, w.OutsAfter, w.EqualValue, feeMode, wantFee)
+		desc := fmt.Sprintf("kind=%s csv=%d amount=%d inputs=%d before=%d after=%d equal=%v fee=%s/%d opening=%s/vout%d", kind, csv, amount, w.Inputs, w.OutsBefore, w.OutsAfter, w.EqualValue, feeMode, wantFee, peerShape, trueVout)
 		var cerr error
 		switch kind {
 		case "preimage":
@@ -187,7 +220,7 @@ func TestC03LiquidSpends(t *testing.T) {
 		if err := checkLiquidSpend(kind, spend, opening, trueVout, params, w.BlindKey, walletPay, wantFee, makerPub, takerPub, hash[:]); err != nil {
 			t.Fatalf("VKEY[C03/liquid/%s-spend-invalid] %s: %v", kind, desc, err)
 		}
-		col.Case(desc, w.OutsBefore > 0 || w.OutsAfter > 0, map[string]interface{}{"kind": kind, "csv": csv, "amount": amount, "swap_vout": trueVout, "outputs": len(opening.Outputs)}, "kind:"+kind, fmt.Sprintf("vout:%d", trueVout))
+		col.Case(desc, w.OutsBefore > 0 || w.OutsAfter > 0, map[string]interface{}{"kind": kind, "csv": csv, "amount": amount, "swap_vout": trueVout, "outputs": len(opening.Outputs)}, "kind:"+kind, fmt.Sprintf("vout:%d", trueVout), "opening:"+peerShape)
 	})
 }
 
